@@ -20,6 +20,14 @@ import time
 
 FAULT_CLASSES = {"RuntimeError": RuntimeError, "ValueError": ValueError, "KeyError": KeyError}
 
+# stubs pickle as a reference to themselves (a dask worker thread receives a serialized copy of the WRAPPER; all copies in a process must still
+# guard the one wrapped primitive)
+_STUBS = {}
+
+
+def _lookup_stub(key):
+    return _STUBS[key]
+
 
 def make_stub(kind, plan, delay):
     """kind: 'sampler' | 'estimator'; plan: {invocation number: (where, exception class name)}"""
@@ -63,6 +71,10 @@ def make_stub(kind, plan, delay):
             self.max_in_use = 0
             self.in_run = 0       # inside run() only (what a plain mutex wrapper serialises)
             self.max_in_run = 0
+            _STUBS[id(self)] = self
+
+        def __reduce__(self):
+            return (_lookup_stub, (id(self),))
 
         def run(self, pubs, **kw):
             pubs = list(pubs)
@@ -106,7 +118,7 @@ def make_pub(kind, i):
 
 def gen_scenario(rng):
     kind = rng.choice(["sampler", "estimator"])
-    wrapper = rng.choice(["batching", "batching", "batching", "mutex"])
+    wrapper = rng.choice(["batching", "batching", "batching", "mutex", "mutex-copies"])
     n_rounds = rng.randint(2, 4)
     nid = [0]
 
@@ -137,6 +149,7 @@ def execute(sc, waiting=0.02, delay=0.01, timeout=8.0):
         w = (BatchingMutexSampler if kind == "sampler" else BatchingMutexEstimator)(stub, waiting_duration=waiting)
     else:
         w = (MutexSampler if kind == "sampler" else MutexEstimator)(stub)
+    copies = sc["wrapper"] == "mutex-copies"  # every caller works on its own pickle round trip of the wrapper, as a dask worker thread does
     outcomes = []
     for callers in sc["rounds"]:
         res = [None] * len(callers)
@@ -144,8 +157,11 @@ def execute(sc, waiting=0.02, delay=0.01, timeout=8.0):
 
         def call(i, ids):
             try:
+                import pickle
+
+                mine = pickle.loads(pickle.dumps(w)) if copies and i % 2 == 1 else w
                 barrier.wait(5)
-                r = w.run([make_pub(kind, j) for j in ids]).result()
+                r = mine.run([make_pub(kind, j) for j in ids]).result()
                 res[i] = ["ok", [pr.metadata.get("id") for pr in r]]
             except Exception as e:  # noqa: BLE001
                 res[i] = ["exc", type(e).__name__, str(e)[:80]]
@@ -160,6 +176,7 @@ def execute(sc, waiting=0.02, delay=0.01, timeout=8.0):
         outcomes.append([r if r is not None else ["hang"] for r in res])
         if hung:
             break  # the wrapper is stuck; later rounds would hang as well
+    _STUBS.pop(id(stub), None)
     return {"outcomes": outcomes, "invocations": stub.invocations, "failed": sorted(stub.failed),
             "max_in_use": stub.max_in_use if sc["wrapper"] == "batching" else stub.max_in_run}
 
@@ -215,6 +232,8 @@ def run_wrapper_level(ctx, prop, n_quick=25, n_thorough=400):
         {"kind": "estimator", "wrapper": "batching", "rounds": [[[1, 2], [3]], [[4], [5, 6]], [[7]]], "plan": {"1": ["result", "ValueError"]}},
         {"kind": "estimator", "wrapper": "batching", "rounds": [[[1], [2]], [[3]]], "plan": {"0": ["run", "RuntimeError"]}},
         {"kind": "sampler", "wrapper": "batching", "rounds": [[[1], [2, 3]], [[4]], [[5], [6]]], "plan": {"0": ["result", "KeyError"]}},
+        {"kind": "sampler", "wrapper": "mutex-copies", "rounds": [[[1], [2], [3], [4]], [[5], [6], [7]]], "plan": {}},
+        {"kind": "estimator", "wrapper": "mutex-copies", "rounds": [[[1], [2], [3], [4]], [[5], [6], [7]]], "plan": {}},
     ]
     scenarios = fixed + [gen_scenario(rng) for _ in range(ctx.n(n_quick, n_thorough))]
     for sc in scenarios:
